@@ -548,6 +548,14 @@ def run(ctx):
          [new("DimensionalityEstimator", k=3, **akw), {"op": "fit", "x": D1}],
          [new("DimensionalityEstimator", k=3, **akw), {"op": "fit", "x": D2}], q2),
     ]
+    z2 = {"__array__": (0.5 * hrng.normal(size=12)).tolist()}
+    histories += [
+        # (third component "same-object": the history is the whole first list, the second list is its one-shot equivalent)
+        ("a fitted estimator re-processed with other latent parameters (process_inference(pre_transformation=...))",
+         [new("DensityEstimator", **akw), {"op": "fit", "x": D1}, {"op": "call", "name": "process_inference", "kwargs": {"pre_transformation": z2}}],
+         ("same-object", [new("DensityEstimator", **akw), {"op": "call", "name": "prepare_inference", "x": D1},
+                          {"op": "call", "name": "process_inference", "kwargs": {"pre_transformation": z2}}]), q2),
+    ]
     if ctx.thorough:
         histories += [
             ("rank=1.0 then rank=1 (integer), explicit landmarks",
@@ -560,8 +568,11 @@ def run(ctx):
     jobs = []
     for hi, (what, before, plain, qq) in enumerate(histories):
         # plain == []: the history is one estimator used repeatedly; its one-shot equivalent is construction + first fit
-        plain_full = plain if plain else before[:2]
-        jobs.append((hi, "hist", {"steps": before + plain, "query": qq}))
+        if isinstance(plain, tuple):
+            plain_full, hist_steps = plain[1], before
+        else:
+            plain_full, hist_steps = (plain if plain else before[:2]), before + plain
+        jobs.append((hi, "hist", {"steps": hist_steps, "query": qq}))
         jobs.append((hi, "plain", {"steps": plain_full, "query": qq}))
     with ThreadPoolExecutor(max_workers=8) as ex:
         outs = list(ex.map(lambda j: freshproc.run_spec(j[2], "%d_%s" % (j[0], j[1]), ctx.dir), jobs))
@@ -577,6 +588,8 @@ def run(ctx):
                           {"history": what, "steps": jobs[2 * hi + 1][2]["steps"], "error": op_.get("error")})
             continue
         diff = freshproc.differing(oh, op_)
+        if isinstance(plain, tuple):        # the optimisation trace of the first fit is a record, not a fitted value: kept by design
+            diff = [k_ for k_ in diff if k_ != "losses"]
         if diff:
             ctx.violation("C18|history|%s" % what.split(" (")[0].split(",")[0].replace(" ", "-"),
                           "an estimator used after other estimators / fits in the same process differs from the same estimator in a fresh process",
